@@ -990,7 +990,7 @@ func (path *Path) SetLargeCommunities(cs []*bgp.LargeCommunity, doReplace bool) 
 		path.setPathAttr(bgp.NewPathAttributeLargeCommunities(cs))
 	} else {
 		l := a.(*bgp.PathAttributeLargeCommunities).Values
-		path.setPathAttr(bgp.NewPathAttributeLargeCommunities(append(l, cs...)))
+		path.setPathAttr(bgp.NewPathAttributeLargeCommunities(slices.Concat(l, cs)))
 	}
 }
 
